@@ -193,7 +193,7 @@ MANIFEST_TEXT = {
         technique='contract-based deductive verification (Verus termination measure and panic-site preconditions on the extracted real functions); bounded replay grid of hostile documents in the thorough tier',
         design_ref='DESIGN.md §9'),
     'C05': dict(
-        level_text='Proof (Verus, every node and node test) for eval_node_test only: the name test * selects element / attribute / namespace nodes and never text, comment or processing-instruction nodes; the node-type tests and processing-instruction(literal) select by node type (and target). Axes, name matching, predicates, operators over node-sets: not decided.',
+        level_text='Proof (Verus). Node tests (every node and test): * selects element / attribute / namespace nodes only, the node-type tests and processing-instruction(literal) select by node type (and target). Axes (every tree the DOM primitives can present): ancestor, ancestor-or-self, child, descendant, descendant-or-self, following-sibling, preceding-sibling, following, preceding return exactly the node list of XPath 1.0 section 2.2 in axis order. Core functions: count, string, concat, starts-with, contains, substring-before/-after, boolean, not, true, false, number, floor, ceiling, round in terms of the string / number / boolean value of their arguments. Predicates, operators over node-sets, string-values of nodes, the attribute axis: not decided.',
         level_note='Trusted as C19; node type and node name are uninterpreted functions of the opaque node. A thin slice of C05.',
         technique='contract-based deductive verification (Verus postconditions on the extracted real function over uninterpreted node attributes)',
         design_ref='DESIGN.md §9'),
